@@ -1,6 +1,7 @@
 package main
 
 import (
+	"go/ast"
 	"fmt"
 	"go/constant"
 	"go/token"
@@ -31,6 +32,14 @@ func (t *fnTrans) nilCheck(ins ssa.Instruction, ref string) {
 func (t *fnTrans) instr(ins ssa.Instruction) {
 	switch x := ins.(type) {
 	case *ssa.DebugRef:
+		// remember which SSA value a source-level local currently names (for atcall / step clauses)
+		if id, ok := x.Expr.(*ast.Ident); ok && !x.IsAddr {
+			if v, known := t.vals[x.X]; known {
+				t.locals = append(t.locals, localBinding{id.Name, x.Block(), v})
+			} else if _, isConst := x.X.(*ssa.Const); isConst {
+				t.locals = append(t.locals, localBinding{id.Name, x.Block(), t.val(x.X)})
+			}
+		}
 		return
 	case *ssa.Alloc:
 		T := x.Type().(*types.Pointer).Elem()
@@ -664,7 +673,12 @@ func (t *fnTrans) typeAssert(x *ssa.TypeAssert) {
 		}
 		return
 	}
-	t.oblig("typeassert", x, "", ok, "type assertion may fail")
+	if t.ct.Flags["maypanic-typeassert"] != "" {
+		// a failing assertion panics (the caller recovers); execution continues only if it held
+		t.assume(ok)
+	} else {
+		t.oblig("typeassert", x, "", ok, "type assertion may fail")
+	}
 	v := t.define(x, x.Type(), res)
 	if _, isIface := under(AT).(*types.Interface); !isIface {
 		t.assume(t.valueFacts(t.st, v))
